@@ -328,7 +328,7 @@ def minimise(mod, tier, trace, oracle, timeout_s, max_tests=300, max_wall=120.0)
         tests[0] += 1
         c = copy.deepcopy(cand)
         res = fork_run(mod, c, tier, timeout_s)
-        return _same_failure(res, oracle)
+        return _same_failure(res, oracle) is not None
 
     best = copy.deepcopy(trace)
     # 1. ddmin over ops, then faults
@@ -340,10 +340,7 @@ def minimise(mod, tier, trace, oracle, timeout_s, max_tests=300, max_wall=120.0)
         def test_items(cand_items, key=key):
             cand = dict(best)
             cand[key] = cand_items
-            r = test(cand)
-            if r is None:
-                return None
-            return bool(r)
+            return test(cand)
 
         items = _ddmin(list(items), test_items, allow_empty=(key == "faults"))
         best = dict(best)
